@@ -70,7 +70,7 @@ func OddProfile(r *rand.Rand) *profile.Profile {
 	}
 	nf := r.Intn(5)
 	for i := 0; i < nf; i++ {
-		p.Function = append(p.Function, &profile.Function{ID: id(i), Name: os(), SystemName: os(), Filename: os(), StartLine: []int64{0, 1, -1, math.MaxInt64}[r.Intn(4)]})
+		p.Function = append(p.Function, &profile.Function{ID: id(i), Name: os(), SystemName: os(), Filename: os(), StartLine: []int64{0, 1, -1, math.MaxInt64, 10}[r.Intn(5)]})
 	}
 	nl := r.Intn(6)
 	for i := 0; i < nl; i++ {
@@ -80,7 +80,7 @@ func OddProfile(r *rand.Rand) *profile.Profile {
 		}
 		if nf > 0 {
 			for j, k := 0, r.Intn(4); j < k; j++ {
-				l.Line = append(l.Line, profile.Line{Function: p.Function[r.Intn(nf)], Line: []int64{0, 1, -7, math.MaxInt64, math.MinInt64}[r.Intn(5)], Column: []int64{0, 3, -1}[r.Intn(3)]})
+				l.Line = append(l.Line, profile.Line{Function: p.Function[r.Intn(nf)], Line: []int64{0, 1, -7, math.MaxInt64, math.MinInt64, 1 << 40, 1 << 33, 100000}[r.Intn(8)], Column: []int64{0, 3, -1}[r.Intn(3)]})
 			}
 		}
 		p.Location = append(p.Location, l)
@@ -501,8 +501,9 @@ func init() {
 		ID:               "C09",
 		Level:            "exploration",
 		CrashIsViolation: true,
-		CaseTimeout:      10 * time.Minute,
-		Rule:             "odd-profile class (empty / 3000-byte / non-UTF8 / metacharacter strings, 1-2 character build ids, ids near 2^64, addresses 0 and max, inverted / zero / overlapping / whole-address-space mappings, MinInt64/MaxInt64 values and labels, unknown/empty units, 12 sample types, no samples, invalid drop_frames). part cli: 10 invocations per profile through the real driver: 19 report formats x hostile values for every option field (33 value classes incl. unbalanced regexps, 1e400, NaN, huge digit strings, unknown units, 79/81-byte and 80-120-byte non-ASCII strings) x granularity x symbolize modes x duplicate sources / base. part interactive: sessions of 4-40 lines (command grammar + noise + hostile assignments) in a fresh child process with per-line transcripts; the loop must consume every line; around lines that are certainly rejected a probe command must give identical answers and the rejection must be reported. part web: 7-25 handler invocations per fresh session over 11 endpoints x parameter soups (34 keys, hostile values, repeats, bad escapes, missing values); no handler panic, every response is output or an error report, a probe request keeps answering as in the pristine session. part exe: the real bin/pprof executable on odd profiles (exit status 0/1/2, no panic text on stderr). non-trivial = every case; distinct = case",
+		CaseTimeout:      4 * time.Minute,
+		HangTries:        3,
+		Rule:             "a case that does not finish within 4 min in 3 of 3 fresh worker processes is a hang (violation); sessions have their own 3-of-3 rule at 30 s. odd-profile class (empty / 3000-byte / non-UTF8 / metacharacter strings, 1-2 character build ids, ids near 2^64, addresses 0 and max, inverted / zero / overlapping / whole-address-space mappings, MinInt64/MaxInt64 values and labels, line numbers 0 / negative / 2^33 / 2^40 / extreme next to start lines 0..10, unknown/empty units, 12 sample types, no samples, invalid drop_frames). part cli: 10 invocations per profile through the real driver: 19 report formats x hostile values for every option field (33 value classes incl. unbalanced regexps, 1e400, NaN, huge digit strings, unknown units, 79/81-byte and 80-120-byte non-ASCII strings) x granularity x symbolize modes x duplicate sources / base. part interactive: sessions of 4-40 lines (command grammar + noise + hostile assignments) in a fresh child process with per-line transcripts; the loop must consume every line; around lines that are certainly rejected a probe command must give identical answers and the rejection must be reported. part web: 7-25 handler invocations per fresh session over 11 endpoints x parameter soups (34 keys, hostile values, repeats, bad escapes, missing values); no handler panic, every response is output or an error report, a probe request keeps answering as in the pristine session. part exe: the real bin/pprof executable on odd profiles (exit status 0/1/2, no panic text on stderr). non-trivial = every case; distinct = case",
 		Assumptions:      []string{"graphviz is not installed: formats needing dot legitimately end in an error", "'never hangs' is restated as a 30 s per-session watchdog (>= 1000x the median session time); a session that exceeds it in 3 of 3 runs is reported as a hang, otherwise inconclusive", "handlers are invoked directly so that a handler panic reaches the monitor instead of net/http's recover"},
 		Parts: []harness.Part{
 			{Name: "cli", Quick: 2500, Thor: 100000, Run: runCLI},
